@@ -190,12 +190,68 @@ def check_formatters(R, rule):
     # server match arms come from format_method_path; SERVICE_NAME from format_service_name
     sgm = tb.body('tonic_build::server::generate_methods')
     c = sgm.calls(name='format_method_path')
-    R.check(len(c) == 1 and [show(strip_refs(sgm.origin(a)))[:4] for a in c[0][1]['args'][:1]] == ['arg1'] and 'emit_package' in show(sgm.origin(c[0][1]['args'][2])), rule, 'server-arms-use-formatter', site(sgm), 'server::generate_methods calls format_method_path(service, method, emit_package): %d site(s)' % len(c))
+    R.check(len(c) == 1 and [show(strip_refs(sgm.origin(a)))[:4] for a in c[0][1]['args'][:1]] == ['arg1'] and strip_refs(sgm.origin(c[0][1]['args'][2]))[0] == 'arg', rule, 'server-arms-use-formatter', site(sgm), 'server::generate_methods calls format_method_path(service, method, emit_package): %d site(s)' % len(c))
     sgi = tb.body('tonic_build::server::generate_internal')
     c = sgi.calls(name='format_service_name')
     gn = sgi.calls(name='generate_named')
     okn = len(c) == 1 and len(gn) == 1 and term_contains(sgi.origin(gn[0][1]['args'][1]), lambda x: is_call(x, name='format_service_name'))
     R.check(okn, rule, 'server-NAME-uses-formatter', site(sgi), 'generate_named(&server_service, &format_service_name(service, emit_package)): %r' % okn)
+    # the package flag: follow it by data flow, not by parameter name.  flag_params(f) = the parameters of f that end up as the
+    # emit_package argument of format_service_name / format_method_path (directly or through the generators f calls)
+    memo = {}
+
+    def flag_params(path, depth=0):
+        if path in memo:
+            return memo[path]
+        memo[path] = set()
+        bs = [x for x in tb.bodies if x.path == path and x.kind == 'fn']
+        if not bs or depth > 6:
+            return set()
+        bd = bs[0]
+        out = set()
+        consts = []
+        fam = [bd] + [c_ for c_ in tb.bodies if c_.kind == 'closure' and c_.path.startswith(bd.path + '::')]
+        for fb in fam:
+            for bb_, t_ in fb.calls():
+                fn_ = t_.get('fn') or ''
+                if fn_ == 'tonic_build::format_service_name':
+                    idxs = [1]
+                elif fn_ == 'tonic_build::format_method_path':
+                    idxs = [2]
+                elif fn_.startswith('tonic_build::') and fn_ != path:
+                    idxs = [n_ - 1 for n_ in flag_params(fn_, depth + 1)]
+                else:
+                    continue
+                for ix in idxs:
+                    if ix < len(t_['args']):
+                        o_ = strip_refs(resolve_env(tb, fb, fb.origin(t_['args'][ix])))
+                        if o_[0] == 'arg':
+                            out.add(o_[1])
+                        else:
+                            consts.append((fb, bb_, show(o_)[:60]))
+        memo[path] = out
+        memo[path + '#other'] = consts
+        return out
+    for side, m_ in (('client', 'generate_client'), ('server', 'generate_server')):
+        inner = 'tonic_build::%s::generate_internal' % side
+        gi = tb.body(inner)
+        R.saw(gi)
+        fp = flag_params(inner)
+        other = memo.get(inner + '#other', [])
+        for k_ in list(memo):
+            if k_.endswith('#other') and k_.startswith('tonic_build::%s::' % side):
+                other = other + [x for x in memo[k_] if x not in other]
+        R.check(len(fp) == 1 and not other, rule, '%s:service-name-flag=emit_package' % side, site(gi),
+                'every format_service_name / format_method_path flag under %s::generate_internal comes from one parameter: parameters %r, other sources %r' % (side, sorted(fp), [x[2] for x in other]))
+        cg_ = tb.body('tonic_build::code_gen::CodeGenBuilder::' + m_)
+        R.saw(cg_)
+        cc = cg_.calls(pat='%s::generate_internal' % side)
+        if len(cc) != 1:
+            R.bad(rule, 'code_gen:%s:call' % m_, site(cg_), 'generate_internal call sites: %d' % len(cc), kind='ANCHOR-MISSING')
+            continue
+        fed = [i_ + 1 for i_, a_ in enumerate(cc[0][1]['args']) if field_names(cg_.origin(a_))[-1:] == ['emit_package']]
+        R.check(len(fed) == 1 and set(fed) == fp, rule, 'code_gen:%s:emit_package->flag-parameter' % m_, site(cg_, cc[0][0]),
+                'builder.emit_package is passed as parameter %r of %s::generate_internal; the parameter that decides the package prefix is %r' % (fed, side, sorted(fp)))
     gnb = tb.body('tonic_build::server::generate_named')
     sgn = tb.sig('tonic_build::server::generate_named')
     R.check(len(sgn['inputs']) == 2 and 'str' in sgn['inputs'][1], rule, 'generate_named-takes-the-name', site(gnb), 'generate_named inputs: %r (the service name is passed in, not rebuilt)' % sgn['inputs'])
